@@ -173,6 +173,65 @@ def _firings(body, scope, path, cbs, out):
     return len(out) - n_before
 
 
+def _inline_helpers(body, tree, cbs, depth=2):
+    """statements `helper(arg, ..)` where `helper` is a module-level function are replaced by the helper's body
+    with its parameters substituted (names for names; a string constant bound to a parameter that is only used
+    as `getattr(x, <param>)()` turns that into the method call `x.<const>()`)"""
+    import copy
+    helpers = {d.name: d for d in tree.body if isinstance(d, ast.FunctionDef)}
+    out = []
+    for st in body:
+        c = st.value if isinstance(st, ast.Expr) and isinstance(st.value, ast.Call) else None
+        if (c is None or not isinstance(c.func, ast.Name) or c.func.id in cbs or c.func.id not in helpers
+                or c.func.id == 'print' or depth == 0):
+            out.append(st)
+            continue
+        h = helpers[c.func.id]
+        a = h.args
+        if a.vararg or a.kwarg or a.kwonlyargs or a.posonlyargs or a.defaults or c.keywords \
+                or len(a.args) != len(c.args):
+            raise Untranslatable(f'_walk: helper {h.name} called in a way outside the subset')
+        bind = {}
+        for prm, arg in zip(a.args, c.args):
+            if isinstance(arg, ast.Name) or (isinstance(arg, ast.Constant) and isinstance(arg.value, str)):
+                bind[prm.arg] = arg
+            else:
+                raise Untranslatable(f'_walk: argument {ast.unparse(arg)} of helper {h.name} outside the subset')
+
+        class Sub(ast.NodeTransformer):
+            def visit_Call(self, n):   # pylint: disable=invalid-name
+                # getattr(x, <param bound to 'name'>)()  ->  x.name()
+                if (isinstance(n.func, ast.Call) and getattr(n.func.func, 'id', '') == 'getattr'
+                        and len(n.func.args) == 2 and isinstance(n.func.args[1], ast.Name)
+                        and isinstance(bind.get(n.func.args[1].id), ast.Constant) and not n.args and not n.keywords):
+                    recv = self.visit(n.func.args[0])
+                    return ast.Call(func=ast.Attribute(value=recv, attr=bind[n.func.args[1].id].value,
+                                                       ctx=ast.Load()), args=[], keywords=[])
+                return self.generic_visit(n)
+
+            def visit_Name(self, n):   # pylint: disable=invalid-name
+                b = bind.get(n.id)
+                if b is None:
+                    return n
+                if isinstance(b, ast.Constant):
+                    raise Untranslatable(f'_walk: helper {h.name} uses its string parameter {n.id} other than in '
+                                         'getattr(x, ..)()')
+                return ast.Name(id=b.id, ctx=n.ctx)
+        stmts = [s for s in h.body if not (isinstance(s, ast.Expr) and isinstance(s.value, ast.Constant))]
+        if stmts and isinstance(stmts[-1], ast.Return) and stmts[-1].value is None:
+            stmts = stmts[:-1]
+        if any(isinstance(x, ast.Return) for s in stmts for x in ast.walk(s)):
+            raise Untranslatable(f'_walk: helper {h.name} returns from the middle')
+        locals_ = {x.id for s in stmts for x in ast.walk(s) if isinstance(x, ast.Name) and isinstance(x.ctx, ast.Store)}
+        if locals_ & set(bind):
+            raise Untranslatable(f'_walk: helper {h.name} rebinds a parameter')
+        if locals_ & {b.id for b in bind.values() if isinstance(b, ast.Name)}:
+            raise Untranslatable(f'_walk: a local of helper {h.name} would capture an argument name')
+        new = [ast.fix_missing_locations(Sub().visit(copy.deepcopy(s))) for s in stmts]
+        out.extend(_inline_helpers(new, tree, cbs, depth - 1))
+    return out
+
+
 def walk_tables(tree):
     walk = find_def(tree, '_walk')
     params = [a.arg for a in walk.args.args]
@@ -190,6 +249,7 @@ def walk_tables(tree):
     table = {}
     for fac, body in branches.items():
         out = []
+        body = _inline_helpers(body, tree, set(cbs))
         _firings(body, [botvar], [], set(cbs), out)
         table[fac] = sorted(set(out))
     return walk_arity(walk), table
